@@ -54,8 +54,8 @@ def register(PROPS, HARNESS_PKGS):
                     _g(MaxMsgs=3, MaxBlocks=3),
                     _g(MaxMsgs=2, MaxBlocks=2, Alphabet="full", Roles="any"),
                     _g(Bases='{"default", "rich"}', MaxDev=3, OnlyBases="TRUE"),
-                    _walks(1500, 14),
-                ], "sample": 200000},
+                    _walks(5000, 14),
+                ], "sample": 320000},
                 "pkg": "internal/adapter/translator/anthropic", "test": "TestVerif_AnthropicReq",
                 "harness_dirs": ["anthropicreq", "anthropicreqlib"],
                 "trace": {"module": "AnthropicReqTrace", "cfg": "AnthropicReq_trace.cfg"},
